@@ -17,7 +17,7 @@ tvars == <<vars, l, fseen, observed, nrpc>>
 
 Idle == GAttr("int", "64", "message", "required", "none", "direct")
 TraceInit == /\ TLCSet(1, 1) /\ l = 1 /\ fseen = {} /\ observed = <<>> /\ nrpc = 0
-             /\ cfg = [pa |-> Idle, ra |-> Idle, stream |-> "none", tagmode |-> "ok", withmd |-> FALSE, explicit |-> FALSE, raw |-> FALSE, devs |-> {}]
+             /\ cfg = [pa |-> Idle, ra |-> Idle, stream |-> "none", tagmode |-> "ok", withmd |-> FALSE, explicit |-> FALSE, raw |-> FALSE, shared |-> FALSE, devs |-> {}]
              /\ pv = FixedVal /\ rv = FixedVal
              /\ pc = "idle" /\ accepted = FALSE /\ proto = <<>> /\ rpcs = <<>> /\ descok = FALSE
              /\ wire = [loc |-> "none", v |-> Absent] /\ delivered = Absent /\ invoked = FALSE /\ errname = "none"
@@ -36,7 +36,7 @@ ObsClass(a, sent, x) == IF x # Absent /\ Emptyish(a, x) /\ sent = Absent THEN "a
 
 TReset == /\ IsEvent("reset") /\ pc \in {"idle", "done"}
           /\ RangeOf(Ev.devs) \subseteq Deviations                      \* only recorded findings may be invoked
-          /\ cfg' = [pa |-> Ev.pa, ra |-> Ev.ra, stream |-> Ev.stream, tagmode |-> Ev.tagmode, withmd |-> Ev.withmd, explicit |-> Ev.explicit, raw |-> Ev.raw, devs |-> RangeOf(Ev.devs)]
+          /\ cfg' = [pa |-> Ev.pa, ra |-> Ev.ra, stream |-> Ev.stream, tagmode |-> Ev.tagmode, withmd |-> Ev.withmd, explicit |-> Ev.explicit, raw |-> Ev.raw, shared |-> Ev.shared, devs |-> RangeOf(Ev.devs)]
           /\ pv' = Ev.pv /\ rv' = Ev.rv
           /\ pc' = "eval" /\ accepted' = FALSE /\ proto' = <<>> /\ rpcs' = <<>> /\ descok' = FALSE
           /\ wire' = [loc |-> "none", v |-> Absent] /\ delivered' = Absent /\ invoked' = FALSE /\ errname' = "none"
